@@ -50,6 +50,7 @@ rpc = rp.constants
 from radical.pilot.raptor import master         as ms
 from radical.pilot.raptor import worker         as wk
 from radical.pilot.raptor import worker_default as wd
+from radical.pilot.raptor import worker_mpi     as wm
 
 from . import sched_rig as SR
 from radical.pilot.agent.scheduler import base as sbase
@@ -61,7 +62,7 @@ MODES = {'exe'  : rp.TASK_EXECUTABLE, 'func': rp.TASK_FUNC, 'eval' : rp.TASK_EVA
 PY_MODES   = ('func', 'eval', 'exec')
 PROC_MODES = ('proc', 'shell')
 KINDS      = ('ret', 'print', 'raise', 'setenv', 'delenv', 'swapout', 'coro', 'tenv', 'sysexit')
-PROC_KINDS = ('ret', 'print', 'raise', 'tenv')
+PROC_KINDS = ('ret', 'print', 'raise', 'tenv', 'sig')
 TRACKED    = ('RPV_X', 'RPV_KEEP', 'RPV_T')
 
 MASTER_UID = 'master.0000'
@@ -130,6 +131,15 @@ def pay_tenv():
 def pay_sysexit():
     sys.exit(3)
 
+def pay_rank(*args):
+    '''a function which runs on every rank of a request: args = [comm,] kinds'''
+    kinds = args[-1]
+    idx   = args[0].rank if len(args) > 1 else 0
+    if kinds[idx] == 'raise':
+        print('partial')
+        raise ValueError('boom on rank %d' % idx)
+    return 7
+
 
 EVAL_CODE = {
     'ret'    : '3 + 4',
@@ -155,7 +165,8 @@ SH_CODE = {
     'ret'  : 'true',
     'print': 'echo hello; echo oops >&2',
     'raise': 'echo partial; exit 3',
-    'tenv' : 'echo $RPV_T'}
+    'tenv' : 'echo $RPV_T',
+    'sig'  : 'kill -9 $$'}
 
 
 def describe(uid, r):
@@ -356,8 +367,9 @@ class ProcEnv(object):
        leave() re-establishes it (the process boundary of the emulation, and
        hygiene for whoever runs the rig).'''
 
-    def __init__(self):
+    def __init__(self, extra=None):
         self.environ = _REAL_ENVIRON
+        self.extra   = extra or {}
 
     def enter(self):
         os.environ = self.environ
@@ -365,6 +377,8 @@ class ProcEnv(object):
         self.cwd  = os.getcwd()
         self.out, self.err = sys.stdout, sys.stderr
         os.environ['RPV_KEEP'] = 'k'
+        for k, v in self.extra.items():
+            os.environ[k] = v
         for k in ('RPV_X', 'RPV_T'):
             os.environ.pop(k, None)
             os.unsetenv(k)
@@ -405,8 +419,9 @@ class DispatcherBench(object):
     '''a real DefaultWorker object (no __init__) with the real dispatchers
        registered, each wrapped by a before/after recorder'''
 
-    def _make_worker(self, ncores, ngpus):
-        w = wd.DefaultWorker.__new__(wd.DefaultWorker)
+    def _make_worker(self, ncores, ngpus, cls=None):
+        cls = cls or wd.DefaultWorker
+        w = cls.__new__(cls)
         w._log  = rpshim.NullLog()
         w._prof = rpshim.NullLog()
         w._uid  = WORKER_UID
@@ -429,6 +444,7 @@ class DispatcherBench(object):
         # payload functions are methods of the worker implementation
         for k in KINDS:
             setattr(w, 'pay_' + k, globals()['pay_' + k])
+        w.pay_rank = pay_rank
         for short, mode in MODES.items():
             if short != 'exe':
                 w._modes[mode] = self._wrap(short, w._modes[mode])
@@ -446,8 +462,13 @@ class DispatcherBench(object):
         return s
 
     def _record(self, short, task, before, res, raised):
-        kind = self.reqs[task['uid']]['kind']
-        ev = {'uid': task['uid'], 'mode': short, 'kind': kind, 'b': before, 'a': self.snap(),
+        r = self.reqs[task['uid']]
+        if 'rk' in r:        # MPI request: this rank's own outcome
+            kind = {'ok': 'ret'}.get(r['rk'][task['ranks'].index(task['rank'])],
+                                     r['rk'][task['ranks'].index(task['rank'])])
+        else:
+            kind = r['kind']
+        ev = {'uid': task['uid'], 'rank': int(task.get('rank', -1)), 'mode': short, 'kind': kind, 'b': before, 'a': self.snap(),
               'returned': False, 'ret': 'none', 'val': 'none', 'out': 'none', 'errh': 'none',
               'exc': False, 'raised': raised}
         if raised == 'none' and isinstance(res, tuple) and len(res) == 5:
@@ -943,3 +964,324 @@ class RoutingRig(SR.SchedRig):
                  for u, r in self.rinfo.items()}
         return {'family': 'sched', 'uids': sorted(self.rinfo), 'reqs': rinfo,
                 'events': self.revents}
+
+
+# ------------------------------------------------------------------------------
+# MPI worker (raptor/worker_mpi.py)
+#
+MPI_MODES = ('func', 'eval', 'shell')
+MPI_ENV   = {'RP_TASK_SANDBOX': None, 'RP_PILOT_ID': 'pilot.0000', 'RP_SESSION_ID': 'rp.session.verif',
+             'RP_RESOURCE': 'local.localhost', 'RP_RESOURCE_SANDBOX': None,
+             'RP_SESSION_SANDBOX': None, 'RP_PILOT_SANDBOX': None, 'RP_GTOD': '/bin/true',
+             'RP_PROF': '/bin/true', 'RP_PROF_TGT': '/dev/null'}
+
+
+def mpi_req(n=1, mode='func', rk=None):
+    '''a request for the MPI worker: n ranks, rk[i] in ok | raise | sig is what
+       the call does on the i-th of its ranks (sig: shell only)'''
+    rk = list(rk or ['ok'] * n)
+    assert len(rk) == n and mode in MPI_MODES
+    assert all(o in ('ok', 'raise') or (o == 'sig' and mode == 'shell') for o in rk)
+    return dict(c=n, g=0, mode=mode, kind='ret', rk=rk, tmo=False, sf=False, via='attr')
+
+
+def describe_mpi(uid, r):
+    mode, rk = r['mode'], r['rk']
+    d = {'uid': uid, 'mode': MODES[mode], 'raptor_id': MASTER_UID, 'ranks': r['c']}
+    bad = tuple(str(i) for i, o in enumerate(rk) if o == 'raise')
+    if mode == 'func':
+        d['function'] = 'pay_rank'
+        d['args']     = [list(rk)]
+    elif mode == 'eval':
+        d['code'] = "[print('partial'), 1 / 0] if os.environ['RP_RANK'] in %r else 7" % (bad,)
+    else:
+        d['command'] = 'case $RP_RANK in ' + ''.join(
+            '%d) echo partial; exit 3;; ' % i if o == 'raise' else '%d) kill -9 $$;; ' % i
+            for i, o in enumerate(rk) if o != 'ok') + 'esac; true'
+    td = rp.TaskDescription(d)
+    td.verify()
+    return td.as_dict()
+
+
+class AbortLog(rpshim.NullLog):
+    '''logger stand-in; lets a logical thread which is being unwound leave the
+       catch-all handlers of the real run() loops'''
+
+    def __init__(self, rig):
+        self.__dict__['rig'] = rig
+
+    def exception(self, *a, **k):
+        ctl = self.rig.ctl
+        if ctl is not None and ctl.aborting:
+            raise SC.Abort()
+
+
+class GEvent(object):
+    '''the resource event of _Resources: wait() is a schedule point which is
+       enabled once the event is set'''
+
+    def __init__(self, rig):
+        self.rig, self.flag = rig, True
+
+    def set(self)   : self.flag = True
+    def clear(self) : self.flag = False
+    def is_set(self): return self.flag
+
+    def wait(self, timeout=None):
+        self.rig.log('Poll')
+        self.rig.ctl.point('evt', wants=Gate(lambda: not self.flag))
+        return self.flag
+
+
+class MpiGetter(object):
+    rig = None
+
+    def __init__(self, channel=None, url=None, **kw):
+        self.channel = channel
+
+    def get_nowait(self, qname=None, timeout=None):
+        rig = MpiGetter.rig
+        if rig.ctl.aborting:
+            raise SC.Abort()
+        rig.ctl.point('get:%s' % self.channel,
+                      wants=Gate(lambda: not rig.q_ready(self.channel, qname)))
+        return rig.q_take(self.channel, qname)
+
+
+class MpiPutter(object):
+    def __init__(self, channel=None, url=None, **kw):
+        self.channel = channel
+
+    def put(self, msg, qname=None):
+        MpiGetter.rig.q_put(self.channel, qname, msg)
+
+
+class FakeComm(object):
+    def __init__(self, rank, size):
+        self.rank, self.size = rank, size
+
+    def Free(self):
+        pass
+
+
+class FakeGroup(object):
+    def __init__(self, ranks=None):
+        self.ranks = ranks
+
+    def Incl(self, ranks):
+        return FakeGroup(list(ranks))
+
+    def Free(self):
+        pass
+
+
+class FakeWorld(object):
+    def __init__(self, rank):
+        self.rank = rank
+
+    def Create_group(self, group):
+        return FakeComm(group.ranks.index(self.rank), len(group.ranks))
+
+
+class MPIRig(RaptorRig):
+    '''rank 0's two threads and the worker ranks of the MPI worker as logical
+       threads (T = _TaskPuller.run, U = _ResultPusher.run, K<k> =
+       MPIWorkerRank.run of rank k), all real; the ZMQ end points are in-memory
+       queues (messages are deep-copied) whose get_nowait is the schedule point;
+       the master side is the real Master._result_cb'''
+
+    def __init__(self, reqs, script=None, seed=0, nranks=3, max_ops=3000):
+        '''script: ('submit', uid) ('T',) ('K', k) ('U', uid, k) ('result', uid)'''
+        self.reqs, self.nranks = reqs, nranks
+        self.rng     = random.Random(seed)
+        self.script  = list(script) if script is not None else None
+        self.max_ops = max_ops
+        self.events, self.published = [], []
+        self.ctl     = None
+        self.tq, self.rresq, self.mresq = [], [], []
+        self.rankq   = {k: [] for k in range(nranks)}
+        self.upick   = None
+        self.unsub   = sorted(reqs)
+        self.agent, self.wq, self.running, self.resq = [], [], [], []
+        self._orig_out, self._orig_err = sys.stdout, sys.stderr
+        env = {k: (v if v is not None else sandbox()) for k, v in MPI_ENV.items()}
+        self.penv = ProcEnv(extra=env)
+
+        log = AbortLog(self)
+        self.base = self._make_worker(nranks, 0, cls=wm.MPIWorker)
+        self.base._log = log
+        self.res  = wm._Resources(log, rpshim.NullLog(), nranks)
+        self.res._res_evt = GEvent(self)
+        real_alloc, real_dealloc, rig = self.res._alloc, self.res._dealloc, self
+
+        def _alloc(task):
+            ranks = real_alloc(task)
+            rig.log('Alloc', uid=task['uid'], sc=list(ranks), sg=[])
+            return ranks
+
+        def _dealloc(task):
+            real_dealloc(task)
+            rig.log('Dealloc', uid=task['uid'])
+        self.res._alloc, self.res._dealloc = _alloc, _dealloc
+
+        self.puller = wm._TaskPuller('wtq', 'wrq', 'rtq', mock.Mock(), self.res, log,
+                                     rpshim.NullLog())
+        self.pusher = wm._ResultPusher('wrq', 'rrq', mock.Mock(), self.res, log,
+                                       rpshim.NullLog())
+        self.penv.enter()
+        try:
+            self.ranks = [wm.MPIWorkerRank('rtq', 'rrq', {'world': FakeWorld(k), 'group': FakeGroup(),
+                                                           'rank': k, 'ranks': nranks},
+                                           mock.Mock(), log, rpshim.NullLog(), self.base)
+                          for k in range(nranks)]
+        finally:
+            self.penv.leave()
+        self.m = self._make_master()
+        self.tasks = {}
+        for uid, r in reqs.items():
+            self.tasks[uid] = {'uid': uid, 'name': 'name.' + uid, 'type': 'task', 'origin': 'client',
+                               'state': rps.AGENT_SCHEDULING, 'description': describe_mpi(uid, r),
+                               'task_sandbox_path': '%s/%s' % (sandbox(), uid)}
+
+    def log(self, ev, **kw):
+        e = {'ev': ev}
+        e.update(kw)
+        e['cores'] = [int(x) for x in self.res._resources['cores']]
+        e['gpus']  = [0, 0]
+        e['npool'] = 0
+        self.events.append(e)
+
+    # in-memory queues -------------------------------------------------------------
+    def q_ready(self, channel, qname):
+        if channel == 'raptor_tasks': return bool(self.tq)
+        if channel == 'rank_tasks'  : return bool(self.rankq[int(qname)])
+        if channel == 'rank_results': return bool(self.rresq)
+        return False
+
+    def q_take(self, channel, qname):
+        if channel == 'raptor_tasks':
+            t = self.tq.pop(0)
+            self.log('Take', uid=t['uid'])
+            return [t]
+        if channel == 'rank_tasks':
+            return [self.rankq[int(qname)].pop(0)]
+        cand = [t for t in self.rresq if (t['uid'], t['rank']) == self.upick] or self.rresq
+        self.upick = None
+        self.rresq.remove(cand[0])
+        return [cand[0]]
+
+    def q_put(self, channel, qname, msg):
+        for t in ru.as_list(msg):
+            t = copy.deepcopy(t)
+            if channel == 'rank_tasks':
+                self.rankq[int(qname)].append(t)
+            elif channel == 'rank_results':
+                self.rresq.append(t)
+                self.log('RankDone', uid=t['uid'], rank=int(t['rank']), ec=str(t.get('exit_code')))
+            elif channel == 'raptor_results':
+                self._on_res_put([t])
+
+    # schedule ---------------------------------------------------------------------
+    def env_ops(self):
+        ops = []
+        if self.unsub:
+            ops.append(('submit', self.unsub[0]))
+        for t in self.mresq:
+            ops.append(('result', t['uid']))
+        return ops
+
+    def env_apply(self, op):
+        if op[0] == 'submit' and op[1] in self.unsub:
+            self.unsub.remove(op[1])
+            self.log('Submit', uid=op[1])
+            self.tq.append(copy.deepcopy(self.tasks[op[1]]))
+        elif op[0] == 'result':
+            self.do_result(op[1])
+
+    def thread_of(self, op):
+        if op[0] == 'T': return 'T'
+        if op[0] == 'U': return 'U'
+        if op[0] == 'K': return 'K%d' % int(op[1])
+        return None
+
+    def choose(self, en, ctl):
+        self.nops += 1
+        if self.nops > self.max_ops:
+            return None
+        if self.init:
+            return self.init.pop(0)
+        if self.script is not None:
+            while self.script:
+                op = tuple(self.script.pop(0))
+                name = self.thread_of(op)
+                if name is None:
+                    self.env_apply(op)
+                    # an environment action may enable a thread which `en` lacks
+                    en = ctl.enabled()
+                elif name in en:
+                    if name == 'U':
+                        self.upick = (op[1], int(op[2]))
+                    return name
+            for op in self.env_ops():
+                self.env_apply(op)
+            en = ctl.enabled()
+            return en[0] if en else None
+        while True:
+            opts = list(ctl.enabled()) + self.env_ops()
+            o = opts[self.rng.randrange(len(opts))]
+            if isinstance(o, tuple):
+                self.env_apply(o)
+                continue
+            if o == 'U' and self.rresq:
+                t = self.rresq[self.rng.randrange(len(self.rresq))]
+                self.upick = (t['uid'], t['rank'])
+            return o
+
+    def env_step(self):
+        '''no thread can run: the environment's turn'''
+        if self.script is not None:
+            while self.script:
+                op = tuple(self.script.pop(0))
+                if self.thread_of(op) is None:
+                    self.env_apply(op)
+                    return True
+        ops = self.env_ops()
+        if not ops:
+            return False
+        self.env_apply(ops[0] if self.script is not None else
+                       ops[self.rng.randrange(len(ops))])
+        return True
+
+    def run(self):
+        names = ['T', 'U'] + ['K%d' % k for k in range(self.nranks)]
+        self.init, self.nops = list(names), 0
+        fake_time = mock.Mock()
+        fake_time.sleep = lambda dt: None
+        fake_time.time  = lambda: 0.0
+        MpiGetter.rig = self
+        self.ctl = ctl = Ctl(self.choose, max_steps=self.max_ops + 100)
+        self.penv.enter()
+        try:
+            with mock.patch.object(wm, 'time', fake_time), \
+                 mock.patch.object(ru.zmq, 'Getter', MpiGetter), \
+                 mock.patch.object(ru.zmq, 'Putter', MpiPutter):
+                ctl.spawn('T', self.puller.run)
+                ctl.spawn('U', self.pusher.run)
+                for k, rk in enumerate(self.ranks):
+                    ctl.spawn('K%d' % k, rk.run)
+                while True:
+                    try:
+                        ctl.run()
+                        break
+                    except SC.Deadlock as e:
+                        if 'step limit' in str(e) or not self.env_step():
+                            break
+                ctl.abort()
+        finally:
+            self.ctl = None
+            self.penv.leave()
+        self.log('End', stuck=False, wdead=False,
+                 pending=len(self.tq) + len(self.rresq) + len(self.mresq) + len(self.unsub)
+                         + sum(len(q) for q in self.rankq.values()))
+        return {'family': 'mpi', 'uids': sorted(self.reqs), 'reqs': self.reqs,
+                'events': self.events}
